@@ -58,6 +58,9 @@ theorem connRecordsV2_encRecs (f : FrameV2) (xs : List RecV2) (r : Bytes) :
 @[simp] theorem connLogAppendV1_eq (a : Int) : connLogAppendV1 a = logAppend a := by
   simp [connLogAppendV1, connMaskTest, Gen.RecordConsts.legacyStampMasksV1, logAppend]
 
+@[simp] theorem connIsControl_eq (a : Int) : connIsControl a = isControl a := by
+  simp [connIsControl, connMaskTest, Gen.RecordConsts.legacyHeaderMasks, isControl]
+
 theorem connStampV2_spec (f : FrameV2) (xs : List RecV2) (r : Bytes) :
     connStampV2 f.attributes f.maxTs (some (xs.map (recOfV2c f), r)) = some (xs.map (recOfV2 f), r) := by
   simp [connStampV2, List.map_map, Function.comp_def, recOfV2]
@@ -71,7 +74,7 @@ theorem readFrameBody_append (f : FrameV2) (h : f.WF) (rest : Bytes) :
 
 theorem connBatchV2_encFrame (crc : Bytes → Nat) (hcrc : ∀ b, crc b < M32) (dec : Int → Bytes → Option Bytes)
     (f : FrameV2) (xs : List RecV2) (h : GoodBatch dec f xs) (rest : Bytes) :
-    connBatchV2 dec (encFrame crc f ++ rest) = some (xs.map (recOfV2 f), rest) := by
+    connBatchV2 dec (encFrame crc f ++ rest) = some (if isControl f.attributes then [] else xs.map (recOfV2 f), rest) := by
   have hw := h.wf
   obtain ⟨h1, h2, _, _, _, _, _, _, _, _, h11⟩ := h.wf
   have hlen : InRange M32 ((9 + (frameBody f).length : Nat) : Int) := by
@@ -79,7 +82,21 @@ theorem connBatchV2_encFrame (crc : Bytes → Nat) (hcrc : ∀ b, crc b < M32) (
   have hm : InRange M8 2 := by unfold InRange M8; omega
   have hcnt : ¬ f.count < 0 := by rw [h.count]; omega
   simp only [encFrame, connBatchV2, List.append_assoc, readI64_i64 _ _ h1, readI32_i32 _ _ hlen, readI32_i32 _ _ h2,
-    readI8_i8 _ _ hm, readU32_u32 _ _ (hcrc _), readFrameBody_append f hw rest, connCodecOf_eq, hcnt, if_false, h.count]
+    readI8_i8 _ _ hm, readU32_u32 _ _ (hcrc _), readFrameBody_append f hw rest, connCodecOf_eq, connIsControl_eq, hcnt,
+    if_false, h.count]
+  have hbr0 : ((9 + (frameBody f).length : Nat) : Int) - 49 = (f.payload.length : Int) := by
+    rw [frameBody_length]; omega
+  by_cases hctl : isControl f.attributes = true
+  · simp only [hctl, if_true, hbr0, Int.toNat_natCast, takeN_append]
+    by_cases hp0 : (f.payload.length : Int) > 0
+    · simp only [hp0, if_true]
+    · have : f.payload = [] := by
+        cases hpl : f.payload with
+        | nil => rfl
+        | cons _ _ => rw [hpl] at hp0; simp at hp0
+      simp [this]
+  have hctl' : isControl f.attributes = false := by simpa using hctl
+  simp only [hctl', Bool.false_eq_true, if_false]
   by_cases hc : codecOf f.attributes = 0
   · have hp : f.payload = encRecs xs := by
       have := h.payload; simp only [hc, if_true, Option.some.injEq] at this; exact this
@@ -193,11 +210,21 @@ theorem connMessageV1_wrapper (c : Crcs) (h1 : ∀ b, c.ieee b < M32) (dec : Int
   simp only [recOfMsg, Rec.mk.injEq, and_true, true_and]
   omega
 
+/-- what the Conn path surfaces of a decoded entry: nothing of a control batch -/
+def visible (g : Bool × List Rec) : List Rec := if g.1 then [] else g.2
+
+theorem flatMap_visible (gs : List (Bool × List Rec)) : gs.flatMap visible = surfaced gs := by
+  induction gs with
+  | nil => rfl
+  | cons g gs ih =>
+    simp only [surfaced, List.flatMap_cons, visible] at ih ⊢
+    cases hg : g.1 <;> simp [List.filter_cons, hg, ih]
+
 theorem connStep_entry (c : Crcs) (h1 : ∀ b, c.ieee b < M32) (h2 : ∀ b, c.castagnoli b < M32)
     (dec : Int → Bytes → Option Bytes) (e : Entry) (g : Bool × List Rec) (hg : GoodEntry c dec e g)
     (hkey : ∀ m, e = .msg m → codecOf m.attributes ≠ 0 → m.key = none) (rest : Bytes) (fuel : Nat) :
     connReadSet dec (fuel + 1) (encEntry c e ++ rest) =
-      (connReadSet dec fuel rest).map (fun t => g.2 ++ t) := by
+      (connReadSet dec fuel rest).map (fun t => visible g ++ t) := by
   cases hbs : encEntry c e ++ rest with
   | nil =>
     have := encEntry_length_ge17 c e
@@ -219,7 +246,7 @@ theorem connStep_entry (c : Crcs) (h1 : ∀ b, c.ieee b < M32) (h2 : ∀ b, c.ca
     | batch f xs' hb =>
       have hm := magicOf_encFrame c.castagnoli f rest
       simp only [magicOf] at hm
-      simp only [encEntry, hm, if_true, connBatchV2_encFrame c.castagnoli h2 dec f xs' hb rest]
+      simp only [encEntry, hm, if_true, connBatchV2_encFrame c.castagnoli h2 dec f xs' hb rest, visible]
       cases connReadSet dec fuel rest <;> rfl
     | msg m hw hc =>
       obtain ⟨b, hb, hne⟩ := magicOf_encMsg c.ieee m rest hw.2.1
@@ -235,7 +262,8 @@ theorem connStep_entry (c : Crcs) (h1 : ∀ b, c.ieee b < M32) (h2 : ∀ b, c.ca
 theorem connReadSet_encSet (c : Crcs) (h1 : ∀ b, c.ieee b < M32) (h2 : ∀ b, c.castagnoli b < M32)
     (dec : Int → Bytes → Option Bytes) (es : List Entry) (gs : List (Bool × List Rec)) (h : AllGood c dec es gs)
     (hkey : ∀ m, Entry.msg m ∈ es → codecOf m.attributes ≠ 0 → m.key = none) (fuel : Nat) (hf : es.length ≤ fuel) :
-    connReadSet dec fuel (encSet c es) = some (gs.flatMap (·.2)) := by
+    connReadSet dec fuel (encSet c es) = some (surfaced gs) := by
+  rw [← flatMap_visible]
   induction h generalizing fuel with
   | nil => cases fuel <;> simp [connReadSet, encSet]
   | cons hg _ ih =>
